@@ -5065,6 +5065,11 @@ class TLSConnection(TLSRecordLayer):
         if hashAndAlgsExt is None or hashAndAlgsExt.sigalgs is None:
             # RFC 5246 states that if there are no hashes advertised,
             # sha1 should be picked
+            if certList and certList.x509List and \
+                    certList.x509List[0].certAlg in (
+                        "Ed25519", "Ed448", "mldsa44", "mldsa65", "mldsa87"):
+                # those keys can't make signatures over a SHA-1 hash
+                raise TLSHandshakeFailure("No common signature algorithms")
             return "sha1", certList, private_key
 
         if check_alt:
